@@ -16,6 +16,7 @@ type Frame struct {
 	callsParam bool // invokes a function-typed parameter: the caller adds the argument closure's frame
 	why        string
 	paramDeps  map[*ssa.Parameter]bool
+	paramParts map[*ssa.Parameter]*Frame // arrays reachable only through the given parameter of the function this frame belongs to
 	arrs       map[string]bool
 	facts      map[string]bool
 }
@@ -56,6 +57,18 @@ func (f *Frame) union(o *Frame) bool {
 			ch = true
 		}
 	}
+	for p, sub := range o.paramParts {
+		if f.paramParts == nil {
+			f.paramParts = map[*ssa.Parameter]*Frame{}
+		}
+		if f.paramParts[p] == nil {
+			f.paramParts[p] = newFrame()
+			ch = true
+		}
+		if f.paramParts[p].union(sub) {
+			ch = true
+		}
+	}
 	return ch
 }
 
@@ -75,6 +88,8 @@ var purePkgs = map[string]bool{
 	"encoding/base64": true, "hash/fnv": true, "crypto/sha256": true, "encoding/hex": true, "hash": true,
 	"sigs.k8s.io/controller-runtime/pkg/controller/controllerutil": false,
 	"github.com/davecgh/go-spew/spew":                              true,
+	"github.com/yuin/gopher-lua":                                   true, // interpreter state only; data crosses as JSON strings
+	"github.com/yuin/gopher-lua/parse":                             true,
 	"k8s.io/apimachinery/pkg/util/json":                            false,
 	"sigs.k8s.io/controller-runtime/pkg/log":                       true,
 	"github.com/go-logr/logr":                                      true,
@@ -359,6 +374,7 @@ func (g *Gen) callFrame(c *ssa.CallCommon, forCallers bool) *Frame {
 						sub := newFrame()
 						sub.union(g.funcFrame(f))
 						g.resolveDeps(sub, f, c.Args, true, forCallers)
+						g.resolveParts(sub, f, c.Args, true, forCallers)
 						fr.union(sub)
 					}
 					if fr.callsParam {
@@ -427,6 +443,7 @@ func (g *Gen) callFrame(c *ssa.CallCommon, forCallers bool) *Frame {
 			}
 		}
 		g.resolveDeps(fr, v, c.Args, false, forCallers)
+		g.resolveParts(fr, v, c.Args, false, forCallers)
 		if fr.callsParam {
 			fr.callsParam = false
 			for _, a := range c.Args {
@@ -594,6 +611,19 @@ func (fc *FnCtx) execCall(st *State, in ssa.Instruction, c *ssa.CallCommon, resT
 	var callee *ssa.Function
 	var con *Contract
 	var key string
+	if c.IsInvoke() && c.Method.Name() == "Name" && strings.HasSuffix(c.Value.Type().String(), "reflect.Type") {
+		// reflect.TypeOf(T{}).Name() for a statically known named type: the literal type name
+		if tc, ok := c.Value.(*ssa.Call); ok {
+			if f := tc.Call.StaticCallee(); f != nil && f.String() == "reflect.TypeOf" && len(tc.Call.Args) == 1 {
+				if mi, ok := tc.Call.Args[0].(*ssa.MakeInterface); ok {
+					if nt, ok := types.Unalias(mi.X.Type()).(*types.Named); ok {
+						fc.useTrusted("reflect.TypeOf(T{}).Name() is the literal name of the static type T")
+						return Val{T: fc.q.lit(nt.Obj().Name())}
+					}
+				}
+			}
+		}
+	}
 	if c.IsInvoke() {
 		recv := fc.val(st, c.Value)
 		if fc.safetyOn {
@@ -642,19 +672,19 @@ func (fc *FnCtx) execCall(st *State, in ssa.Instruction, c *ssa.CallCommon, resT
 	}
 	if !handled {
 		// default: havoc frame, fresh results
-		var fr *Frame
 		if c.IsInvoke() || callee != nil {
-			fr = g.callFrame(c, false)
+			base, parts := g.callFrameParts(c)
+			fc.applyCallFrame(st, c, base, parts)
 		} else {
-			fr = &Frame{top: true}
 			fc.abstract("call through function value")
+			fc.applyFrame(st, &Frame{top: true})
 		}
-		fc.applyFrame(st, fr)
 		res = fc.freshVal(st, resT, "call_"+sanitize(calleeShort(c)))
 		if callee != nil && len(callee.Blocks) > 0 {
 			fc.g.uncontracted[key] = true
 		}
 	}
+	fc.markYoungResults(st, preSt, c, args, res, resT)
 	if con != nil && len(con.Effects) > 0 {
 		saved := map[string]string{}
 		for _, ef := range con.Effects {
@@ -712,6 +742,57 @@ func calleeShort(c *ssa.CallCommon) string {
 		return f.Name()
 	}
 	return "fnval"
+}
+
+// callFrameParts: the frame of a call split into an unrestricted part and parts that exist only through one argument.
+func (g *Gen) callFrameParts(c *ssa.CallCommon) (*Frame, []argPart) {
+	var parts []argPart
+	g.partCollector = &parts
+	base := g.callFrame(c, false)
+	g.partCollector = nil
+	return base, parts
+}
+
+// applyCallFrame: havoc for a call; argument-relative parts are restricted to memory younger than the argument's bound.
+func (fc *FnCtx) applyCallFrame(st *State, c *ssa.CallCommon, base *Frame, parts []argPart) {
+	merged := newFrame()
+	merged.union(base)
+	type restricted struct {
+		arrs []string
+		T    string
+	}
+	var rs []restricted
+	for _, p := range parts {
+		pf := fc.g.closeDeps(p.fr)
+		v := fc.val(st, p.arg)
+		b := ""
+		if !pf.top && v.SV == nil {
+			b = fc.youngBound(st, v)
+		}
+		if b == "" {
+			merged.union(pf)
+			continue
+		}
+		var as []string
+		for a := range pf.arrs {
+			as = append(as, a)
+		}
+		rs = append(rs, restricted{as, b})
+		for f := range pf.facts {
+			merged.facts[f] = true
+		}
+	}
+	merged = fc.g.closeDeps(merged)
+	for _, r := range rs {
+		var as []string
+		for _, a := range r.arrs {
+			if !merged.arrs[a] && !merged.top {
+				as = append(as, a)
+			}
+		}
+		st.havocArrsYoung(as, r.T)
+	}
+	fc.applyFrame(st, merged)
 }
 
 func (fc *FnCtx) applyFrame(st *State, fr *Frame) {
@@ -938,7 +1019,12 @@ func (fc *FnCtx) applyContract(st *State, in ssa.Instruction, c *ssa.CallCommon,
 		// the closure's own effects have been applied above; what remains is the callee's own frame
 		fr = g.ownFrameWithoutParamCalls(callee, fr)
 	}
-	fc.applyFrame(st, fr)
+	if con.Modifies == nil && !con.Pure && override == nil {
+		base, parts := g.callFrameParts(c)
+		fc.applyCallFrame(st, c, base, parts)
+	} else {
+		fc.applyFrame(st, fr)
+	}
 	res := fc.freshVal(st, resT, "ret_"+sanitize(calleeShort(c)))
 	post := &Env{fc: fc, vars: env.vars, pre: pre, cur: st, pkg: con.Pkg, ghostOverride: override}
 	for a := range fc.g.closeDeps(fr).arrs {
@@ -1288,4 +1374,59 @@ func (g *Gen) ownFrameWithoutParamCalls(callee *ssa.Function, resolved *Frame) *
 	own.union(g.funcFrame(callee))
 	own.callsParam = false
 	return own
+}
+
+// markYoungResults: a callee can only hand back memory it allocated or could reach through its inputs. When every
+// input is harmless (scalars, clients, recorders, ...) or itself young, every pointer in the results is young.
+func (fc *FnCtx) markYoungResults(st *State, pre *State, c *ssa.CallCommon, args []Val, res Val, resT types.Type) {
+	bound := pre.alloc()
+	var vals []ssa.Value
+	if c.IsInvoke() {
+		vals = append(vals, c.Value)
+	}
+	vals = append(vals, c.Args...)
+	if mc, ok := c.Value.(*ssa.MakeClosure); ok {
+		vals = append(vals, mc.Bindings...)
+	}
+	if _, isFn := c.Value.(*ssa.Function); !isFn && !c.IsInvoke() {
+		if _, isMC := c.Value.(*ssa.MakeClosure); !isMC {
+			return
+		}
+	}
+	for i, a := range vals {
+		t := a.Type()
+		if harmlessType(t, 0) {
+			continue
+		}
+		var v Val
+		if i < len(args) {
+			v = args[i]
+		} else {
+			v = fc.val(pre, a)
+		}
+		b := ""
+		if v.SV == nil {
+			b = fc.youngBound(pre, v)
+		}
+		if b == "" {
+			return
+		}
+		bound = app("imin", bound, b)
+	}
+	mark := func(v Val, t types.Type) {
+		if v.T == "" || !pointerLike(t) {
+			return
+		}
+		switch fc.g.ti.sortOf(t) {
+		case sRef, sSlice, sIface:
+			st.young[v.T] = bound
+		}
+	}
+	if tup, ok := resT.(*types.Tuple); ok {
+		for i := 0; i < tup.Len() && i < len(res.Tup); i++ {
+			mark(res.Tup[i], tup.At(i).Type())
+		}
+	} else if resT != nil {
+		mark(res, resT)
+	}
 }
